@@ -26,6 +26,7 @@ type charsetModel struct {
 	mapAlloc  ssa.Value
 	mapGlobal *ssa.Global   // set when the map lives in a package variable
 	dispFn    *ssa.Function // set when the sniffers are selected by a function (switch on the type) instead of a map
+	direct    map[*ssa.Call]string // set when the sniffers are called directly under tests of the node's type: call -> type constant
 	bomFn     *ssa.Function
 	bomTable  *ssa.Global
 	boms      []bomEntry
@@ -117,6 +118,89 @@ func (m *charsetModel) findDispatch(c *core.Ctx) {
 	}
 }
 
+// findDirect looks for the inline form: one function of the root package calls
+// charset functions func([]byte) string directly, each call under the true edge
+// of `<node>.mime == "<type constant>"`.
+func (m *charsetModel) findDirect(c *core.Ctx) {
+	tm := tree.Get(c)
+	var host *ssa.Function
+	direct := map[*ssa.Call]string{}
+	for _, f := range c.SrcFuncs() {
+		if core.FuncPkg(f) == nil || core.FuncPkg(f).Pkg.Path() != core.PkgRoot {
+			continue
+		}
+		for _, ci := range core.Calls(f) {
+			call, ok := ci.(*ssa.Call)
+			if !ok {
+				continue
+			}
+			g := call.Call.StaticCallee()
+			if g == nil || core.FuncPkg(g) == nil || core.FuncPkg(g).Pkg.Path() != core.PkgCharset || len(g.Params) != 1 || !core.IsByteSlice(g.Params[0].Type()) || g.Signature.Results().Len() != 1 || !core.IsString(g.Signature.Results().At(0).Type()) {
+				continue
+			}
+			key, found := "", false
+			for _, de := range core.DominatingConds(call.Block()) {
+				cond, val := core.StripNot(de.Cond, de.Val)
+				bo, ok := cond.(*ssa.BinOp)
+				if !ok || bo.Op != token.EQL || !val {
+					continue
+				}
+				for _, pr := range [][2]ssa.Value{{bo.X, bo.Y}, {bo.Y, bo.X}} {
+					if _, fld, isLd := core.LoadOfField(pr[0]); isLd && fld == tm.FMime {
+						if k, isC := core.ConstString(pr[1]); isC {
+							key, found = k, true
+						}
+					}
+				}
+			}
+			if !found {
+				core.Bail("charset function %s is called by %s outside a test of the node's type", g.Name(), f.Name())
+			}
+			if host != nil && host != f {
+				core.Bail("charset functions are called from two functions: %s and %s", host.Name(), f.Name())
+			}
+			host = f
+			direct[call] = key
+		}
+	}
+	if host == nil {
+		return
+	}
+	m.direct = direct
+	m.sniffers = map[string]*ssa.Function{}
+	m.snifKeys = nil
+	for call, k := range direct {
+		if prev, dup := m.sniffers[k]; dup && prev != call.Call.StaticCallee() {
+			core.Bail("two different charset functions for %s", k)
+		}
+		m.sniffers[k] = call.Call.StaticCallee()
+	}
+	for k := range m.sniffers {
+		m.snifKeys = append(m.snifKeys, k)
+	}
+	sort.Strings(m.snifKeys)
+}
+
+// directKeyBase: for the inline form, the node whose type selects the call.
+func (m *charsetModel) directKeyBase(c *core.Ctx, call *ssa.Call) ssa.Value {
+	tm := tree.Get(c)
+	for _, de := range core.DominatingConds(call.Block()) {
+		cond, val := core.StripNot(de.Cond, de.Val)
+		bo, ok := cond.(*ssa.BinOp)
+		if !ok || bo.Op != token.EQL || !val {
+			continue
+		}
+		for _, pr := range [][2]ssa.Value{{bo.X, bo.Y}, {bo.Y, bo.X}} {
+			if base, fld, isLd := core.LoadOfField(pr[0]); isLd && fld == tm.FMime {
+				if k, isC := core.ConstString(pr[1]); isC && k == m.direct[call] {
+					return base
+				}
+			}
+		}
+	}
+	return nil
+}
+
 // snifLookup describes one consultation of the sniffer table: the function
 // value obtained, the key it was looked up by, and the test that it exists.
 type snifLookup struct {
@@ -202,6 +286,9 @@ func getCharset(c *core.Ctx) *charsetModel {
 		m.findDispatch(c)
 	}
 	if builder == nil && m.dispFn == nil {
+		m.findDirect(c)
+	}
+	if builder == nil && m.dispFn == nil && m.direct == nil {
 		core.Bail("no sniffer map (map from type constant to charset function) found in package mimetype")
 	}
 	// where is it consulted? directly, or through the package variable it is stored in
@@ -237,6 +324,9 @@ func getCharset(c *core.Ctx) *charsetModel {
 				}
 			}
 		}
+	}
+	for call := range m.direct {
+		m.walk = call.Parent()
 	}
 	if m.walk == nil {
 		core.Bail("the sniffer map is never consulted")
